@@ -455,7 +455,7 @@ class ExtMixin(object):
         return acc
 
     def x_functools_cmp_to_key(self, args, kwargs, node, env):
-        return Opaque(("cmp_to_key", args[0].key()))
+        return CmpKeyV(args[0])
 
     def x_os_linesep_join(self, args, kwargs, node, env):
         return self.join(Const("\n"), args[0], node)
@@ -514,6 +514,18 @@ class ExtMixin(object):
 
     def m_ListV_sort(self, base, args, kwargs, node):
         if kwargs:
+            k = kwargs.get("key")
+            if isinstance(k, CmpKeyV) and set(kwargs) == {"key"}:
+                import functools
+
+                def cmp(a, b):
+                    r = self.call(k.fn, [a, b], {}, node)
+                    c = r.const() if isinstance(r, Num) else None
+                    if c is None:
+                        raise AnalysisError("comparator result is not concrete: %r" % (r,))
+                    return int(c)
+                base.items[:] = sorted(base.items, key=functools.cmp_to_key(cmp))
+                return NONE
             raise BecomeSignal(base, Opaque(("sorted_by_key", base.key())))
         s = self.x_sorted([base], {}, node, None)
         if isinstance(s, ListV):
@@ -694,6 +706,17 @@ class BecomeSignal(Exception):
     def __init__(self, old, new):
         self.old = old
         self.new = new
+
+
+class CmpKeyV(V):
+    def __init__(self, fn):
+        self.fn = fn
+
+    def key(self):
+        return ("cmpkey", self.fn.key())
+
+    def __deepcopy__(self, memo):
+        return self
 
 
 class LoggerV(V):
